@@ -159,6 +159,15 @@ DIRECTED = [
      {"1099-r:0.box_1": "7500.00", "1099-r:0.box_2a": "7500.00", "1099-r:0.box_7_ira_sep_simple": "yes", "1099-r:0.belongs_to": "spouse",
       "1040.ira_exception1_spouse": "no", "1040.ira_exception2_spouse": "no", "1040.ira_exception3_spouse": "no", "1040.ira_exception4_spouse": "no",
       "w-2:0.box_1": "70000.00", "w-2:0.box_2": "8000.00"}),
+    # use tax on purchases entered with cents: the worksheet multiplies the WHOLE-DOLLAR line above by the county rate (121 x 7 % = 8.47 -> 8; the
+    # amount as entered, 121.45, would give 8.50 -> 9)
+    ({"status": "Single", "dependents": 0, "wage_scale": 60000, "nc": True},
+     {"1098": 1},
+     {"nc_d-400.no_consumer_use_tax": "no", "nc_d-400_consumer_use_tax_wkst.full_records": "yes", "nc_d-400_consumer_use_tax_wkst.out_of_state_purchases": "121.45",
+      "nc_d-400_consumer_use_tax_wkst.out_of_state_purchases_pre_oct": "121.45", "nc_d-400_consumer_use_tax_wkst.out_of_state_purchases_post_oct": "321.43",
+      "nc_d-400_consumer_use_tax_wkst.county_tax_pct": "0.07", "nc_d-400_consumer_use_tax_wkst.county_tax_pct_pre_oct": "0.07",
+      "nc_d-400_consumer_use_tax_wkst.county_tax_pct_post_oct": "0.07", "nc_d-400_consumer_use_tax_wkst.other_state_sales_tax": "0.00",
+      "w-2:0.box_1": "70000.00", "w-2:0.box_2": "8000.00", "w-2:0.box_16": "70000.00", "w-2:0.box_17": "3000.00"}),
     # a couple's NC return with interest on a JOINT account from which N.C. tax was withheld (a payer form owned by both)
     ({"status": "MarriedFilingJointly", "dependents": 0, "wage_scale": 60000, "nc": True},
      {"w-2": 1, "1099-int": 1, "1098": 1},
@@ -170,13 +179,17 @@ DIRECTED = [
     ({"status": "HeadOfHousehold", "dependents": 2, "ctc": [True, True, False, False], "under6": [False, False, False, False], "wage_scale": 20000},
      {"w-2": 0, "1099-r": 1},
      {"1099-r:0.box_1": "53000.00", "1099-r:0.box_2a": "53000.00", "1099-r:0.box_4": "0.00", "1099-r:0.box_7_ira_sep_simple": "no", "1099-r:0.belongs_to": "taxpayer",
-      "1099-r:0.box_2b_taxable_not_determined": "no", "1040.pensions_annuities_adjustments": "no", "1040_s8812.advance_ctc_payments": "0.00"}),
+      "1099-r:0.box_2b_taxable_not_determined": "no", "1040.pensions_annuities_adjustments": "no", "1040_s8812.advance_ctc_payments": "0.00",
+      "1040.non_w-2_household_employee_income": "0.00", "1040.non_w-2_tip_income": "0.00", "1040.non_w-2_medicaid_waiver": "0.00", "1040.other_earned_income": "0.00",
+      "1040.taxable_dependent_care": "0.00", "1040.employer_adoption_benefits": "0.00", "1040.wages_8919": "0.00"}),
     # ... and with a little earned income (wages of $1,200)
     ({"status": "HeadOfHousehold", "dependents": 2, "ctc": [True, True, False, False], "under6": [False, False, False, False], "wage_scale": 20000},
      {"w-2": 1, "1099-r": 1},
      {"w-2:0.box_1": "1200.00", "w-2:0.box_2": "0.00", "w-2:0.box_3": "1200.00", "w-2:0.box_5": "1200.00",
       "1099-r:0.box_1": "53000.00", "1099-r:0.box_2a": "53000.00", "1099-r:0.box_4": "0.00", "1099-r:0.box_7_ira_sep_simple": "no", "1099-r:0.belongs_to": "taxpayer",
-      "1099-r:0.box_2b_taxable_not_determined": "no", "1040.pensions_annuities_adjustments": "no", "1040_s8812.advance_ctc_payments": "0.00"}),
+      "1099-r:0.box_2b_taxable_not_determined": "no", "1040.pensions_annuities_adjustments": "no", "1040_s8812.advance_ctc_payments": "0.00",
+      "1040.non_w-2_household_employee_income": "0.00", "1040.non_w-2_tip_income": "0.00", "1040.non_w-2_medicaid_waiver": "0.00", "1040.other_earned_income": "0.00",
+      "1040.taxable_dependent_care": "0.00", "1040.employer_adoption_benefits": "0.00", "1040.wages_8919": "0.00"}),
 ]
 
 
